@@ -4,8 +4,13 @@ Clauses come from proposed/C04_property.json and from textbook definitions writt
 (Hamilton product `qmul`, rotation matrix of a unit quaternion `qrot_matrix`, Rodrigues' matrix `rodrigues`,
 single-axis rotation matrices `rotX/rotY/rotZ`), never from the code under verification.
 """
+import os
 from engine import Prop
 from shimgen import *
+
+# kind-R portfolio for this property: the optional case-split engine (tools/rsplit.py) runs before nlsat; it is what
+# decides qua(vec3 u, vec3 v) and gtx rotation(), whose terms are nests of if-then-else over sqrt applications
+os.environ.setdefault('LL2SMT_ENGINES', 'default,groebner,split,nlsat')
 
 P = Prop('C04', 'quaternion, matrix, axis-angle and Euler forms of a rotation agree')
 INCLUDES = ['<glm/glm.hpp>', '<glm/gtc/quaternion.hpp>', '<glm/gtx/quaternion.hpp>', '<glm/gtx/euler_angles.hpp>',
@@ -24,6 +29,10 @@ RV = 'glm/gtx/rotate_vector.inl'
 
 def R(fn, real, **kw):
     contracts.append((fn, real, kw))
+
+
+def F(fn, real, D, ensures):
+    fcontracts.append((fn, real, D, ensures))
 
 
 # ---------------------------------------------------------------------------------------- shim vocabulary
@@ -367,6 +376,46 @@ for tag in ('f32', 'f64'):
     R('glm_rotate_vec4_axis_' + tag, 'glm::rotate(vec4, angle, normal)  ' + RV, requires=[UNIT_N],
       ensures=[('is_rodrigues_rotation_of_v', 'And(eqv(out, matvec(embed4(rodrigues(cos(a), sin(a), %s)), %s)))' % (N3, V4))])
 
+
+    # ------------------------------------------------------------------ gtx rotation(orig, dest)
+    d.shim('glm_gtx_rotation_' + tag, 'void', u3i + w3i,
+           'auto r = glm::rotation(%s, %s); %s' % (vec_make(3, tag, 'u'), vec_make(3, tag, 'w'), q_store('r')), outs=[(T, 'out', 4)])
+    AWAY = 'And(dot(%s, %s) >= -R(999)/1000, dot(%s, %s) <= R(999)/1000)' % (U3, W3, U3, W3)
+    R('glm_gtx_rotation_' + tag, 'glm::rotation(vec3 orig, vec3 dest)  ' + XQ,
+      requires=[('unit_orig', 'norm2(%s) == 1' % U3), ('unit_dest', 'norm2(%s) == 1' % W3)],
+      ensures=[('is_unit', 'Implies(%s, norm2(out) == 1)' % AWAY),
+               ('rotates_orig_onto_dest', 'Implies(%s, And(eqv(matvec(qrot_matrix(out), %s), %s)))' % (AWAY, U3, W3))],
+      tier='thorough')
+
+    # ------------------------------------------------------------------ layout (kind F, bitwise, all inputs)
+    BITS = 'll2c_f%d_bits' % (32 if tag == 'f32' else 64)
+    SIGN = '0x80000000u' if tag == 'f32' else '0x8000000000000000ull'
+
+    def same(a, b):
+        return '%s(%s) == %s(%s)' % (BITS, a, BITS, b)
+
+    def fam_layout(D, sfx, tag=tag, T=T, q=q, BITS=BITS, SIGN=SIGN, same=same):
+        order = 'wxyz' if D is dw else 'xyzw'
+        D.shim('glm_quat_memory_%s%s' % (tag, sfx), 'void', q_ins(tag), '%s s = %s; std::memcpy(out, &s, 4 * sizeof(%s));' % (q_t(tag), q, T),
+               outs=[(T, 'out', 4)])
+        F('glm_quat_memory_%s%s' % (tag, sfx), 'qua(w, x, y, z) member order in memory  glm/detail/type_quat.hpp', D,
+          [('memory_order_is_' + order, ' && '.join(same('out[%d]' % i, 'q' + c) for i, c in enumerate(order)))])
+        D.shim('glm_quat_index_%s%s' % (tag, sfx), 'void', q_ins(tag), '%s s = %s; out[0] = s[0]; out[1] = s[1]; out[2] = s[2]; out[3] = s[3];' % (q_t(tag), q),
+               outs=[(T, 'out', 4)])
+        F('glm_quat_index_%s%s' % (tag, sfx), 'qua::operator[]  ' + QT, D,
+          [('index_order_is_' + order, ' && '.join(same('out[%d]' % i, 'q' + c) for i, c in enumerate(order)))])
+        D.shim('glm_quat_named_ctors_%s%s' % (tag, sfx), 'void', q_ins(tag),
+               '%s a = %s; %s b = %s::wxyz(qw, qx, qy, qz); %s c(qw, %s(qx, qy, qz)); %s %s %s' % (
+                   q_t(tag), q, q_t(tag), q_t(tag), q_t(tag), vec_t(3, tag), q_store('a'), q_store('b', base=4), q_store('c', base=8)),
+               outs=[(T, 'out', 12)])
+        F('glm_quat_named_ctors_%s%s' % (tag, sfx), 'qua(w,x,y,z), qua::wxyz(w,x,y,z), qua(s, vec3)  ' + QT, D,
+          [('members_by_name_are_the_arguments', ' && '.join(same('out[%d]' % (4 * k + i), 'q' + c) for k in range(3) for i, c in enumerate('wxyz')))])
+        D.shim('glm_conjugate_bits_%s%s' % (tag, sfx), 'void', q_ins(tag), 'auto r = glm::conjugate(%s); %s' % (q, q_store('r')), outs=[(T, 'out', 4)])
+        F('glm_conjugate_bits_%s%s' % (tag, sfx), 'glm::conjugate(qua)  glm/ext/quaternion_common.inl', D,
+          [('w_kept_xyz_sign_flipped_bitwise', same('out[0]', 'qw') + ' && ' + ' && '.join(
+              '%s(out[%d]) == (%s(q%s) ^ %s)' % (BITS, i + 1, BITS, c, SIGN) for i, c in enumerate('xyz')))])
+    both(fam_layout)
+
 for fn, real, kw in contracts:
     kw.setdefault('timeout', 120)
 
@@ -375,10 +424,44 @@ flatw = P.build(dw, 'flat', defines=['GLM_ENABLE_EXPERIMENTAL', 'GLM_FORCE_QUAT_
 for fn, real, kw in contracts:
     D = kw.pop('build', d)
     P.contract(fn, real, kind='R', build=(flatw if D is dw else flat), **kw)
+for fn, real, D, ens in fcontracts:
+    P.contract(fn, real, ensures=ens, build=(flatw if D is dw else flat), unwind=2, backends=('sat',), timeout=120)
 
-P.level_text = 'over the reals (machine arithmetic treated as mathematical): TODO'
-P.level_note = 'TODO'
-P.technique = 'contracts over the reals on mechanically extracted LLVM IR: symbolic execution + z3 QF_NRA / sympy Groebner, CBMC contracts for bit-exact branch facts'
+P.level_text = ('over the reals (machine arithmetic treated as mathematical): the real-valued function computed by the code clang extracts '
+                'from /repo equals the textbook object (Hamilton product, rotation matrix of a unit quaternion, Rodrigues matrix, '
+                'product of single-axis rotation matrices, q or -q for the matrix->quaternion round trip through every largest-component '
+                'branch) for all real inputs satisfying the stated domain, identically in the XYZW and WXYZ builds; decided by z3 '
+                'nonlinear real arithmetic / Groebner bases on the extracted IR.  Memory order, operator[] order, constructors by '
+                'name and conjugate are in addition proved bit-precisely (CBMC) for all float/double patterns in both layouts')
+P.level_note = ('trusted: clang-14 lowering, tools/ll2smt.py symbolic execution (+ tools/rsplit.py case split for two obligations), z3, '
+                'sympy Groebner, specs/rspec.py (qmul, qrot_matrix, rodrigues, rotX/Y/Z, matmul), the ground axioms of sqrt/sin/cos/'
+                'asin/acos and the trigonometric identities listed under assumptions; blind to rounding, overflow/underflow, NaN/Inf, to '
+                'the behaviour of float code within 1e-9 of an axis / of w = +-1 (cancellation), and to the value of the float constant '
+                'pi (angle() for w < -7/8)')
+P.technique = ('contracts over the reals on mechanically extracted LLVM IR: symbolic execution + z3 QF_NRA / sympy Groebner, '
+               'CBMC contracts for bit-exact branch facts')
 P.design_ref = 'DESIGN.md sections 5 and 6 C04'
-P.assumptions = ['machine arithmetic treated as mathematical (IEEE float/double identified with the reals)']
-P.not_covered = []
+P.assumptions = ['machine arithmetic treated as mathematical (IEEE float/double identified with the reals)',
+                 'cos(a) == 1 - 2*sin(a/2)^2 and sin(a) == 2*sin(a/2)*cos(a/2) (double-angle identities; requires of '
+                 'mat3_cast(angleAxis), angleAxis*v and mat3_cast(qua(eulerAngles)))',
+                 'sin(-a) == -sin(a) and cos(-a) == cos(a) (requires of eulerAngleXYZ, whose code evaluates sin/cos at the negated angles)',
+                 'ground axioms of the uninterpreted functions: x >= 0 => sqrt(x) >= 0 and sqrt(x)^2 == x; sin^2 + cos^2 == 1; '
+                 '-1 <= c <= 1 => cos(acos c) == c, sin(acos c) >= 0, acos c >= 0; -1 <= s <= 1 => sin(asin s) == s, cos(asin s) >= 0',
+                 'Euler-angle convention of qua(vec3 eulerAngles) taken from the documentation (pitch = x, yaw = y, roll = z) and the '
+                 'textbook 3-2-1 sequence q = qz(roll) * qy(yaw) * qx(pitch), the sequence whose inverse formulas eulerAngles()/pitch/yaw/roll implement',
+                 'orientate3/orientate4(vec3): the documentation says (Y * X * Z) without assigning the components of the argument to the '
+                 'axes; the clause accepts any assignment (a permutation)']
+P.not_covered = ['extractEulerAngleABC (12 functions), eulerAngles/pitch/yaw/roll: inverses through atan2/asin with epsilon singularity guards; '
+                 'no sound axiom-level clause over uninterpreted atan2',
+                 'angle(q) and angleAxis(angle(q), axis(q)) for w < -7/8: on |w| > cos(1/2), w < 0 the code returns 2*pi_T - a with the float '
+                 'constant pi_T, which is not the real number pi, so the identity is not a theorem over the reals (claimed domain: w >= -7/8)',
+                 'qua(vec3 u, vec3 v) for -1 < u.v < -0.999 (the code switches to a half turn about an arbitrary orthogonal axis below '
+                 '-1 + 1e-6: approximate by design); exactly opposite vectors are covered',
+                 'gtx rotation(orig, dest) for |orig.dest| > 0.999 (epsilon guards return the identity / a guessed axis: approximate by design)',
+                 'rotate(qua, angle, axis) for a non-unit axis (normalised by the code only when |len - 1| > 0.001)',
+                 'quat_cast on matrices that are not rotation matrices; quatLookAt*, mix/slerp/lerp/squad/intermediate/exp/log/pow, '
+                 'derivedEulerAngle*, gtx slerp(vec3)/orientation, gtx/dual_quaternion',
+                 'rounding, cancellation near w = +-1 and near the axes (the property statement asks for inputs within 1e-9 of an axis: '
+                 'over the reals they are covered, in float arithmetic they are not)',
+                 'T-check (generated C vs real code, bitwise) skips every input of the f32 shims through mat3_cast: clang leaves '
+                 'unused poison lanes in <4 x float> operations and ll2c flags any poison operand (kind R does not use ll2c)']
